@@ -80,7 +80,8 @@ fn gen_tf(depth: u32, shards: &[String]) -> TF {
         2 => TF::Tenant(if sim::w(4) == 3 { 1 } else { 0 }),
         3 => {
             let all = ["cpu", "mem", "disk", "net"];
-            let n = sim::w_range(1, 2);
+            // (lists of up to four names, in drawn order - not sorted, possibly with repeats)
+            let n = sim::w_range(1, 4);
             TF::Metrics((0..n).map(|_| all[sim::w(4) as usize].to_string()).collect())
         }
         4 => TF::And((0..sim::w_range(0, 3)).map(|_| gen_tf(depth + 1, shards)).collect()),
